@@ -303,7 +303,7 @@ def read_real(R, k):
     raise MachineryError("unknown reader " + k)
 
 
-def read_ok(R, k, got, exc, exp, arc):
+def read_ok(R, k, got, exc, exp, arc, stale=False):
     """Does the value returned by the real reader equal the model's value `exp`?"""
     if k == "bounds" and len(seq(exp)) == 0:
         return True                      # bounds of an empty drawing: left unconstrained
@@ -315,6 +315,10 @@ def read_ok(R, k, got, exc, exp, arc):
     if k == "vg":
         return got == bool(exp)
     if k == "refd":
+        if stale:
+            # attributing a value kept from an earlier state: its indices belong to an earlier vertex array,
+            # which the current bijection cannot translate; same number of indices
+            return len(got) == len(seq(exp))
         return sorted(got) == sorted(R.m2r[q] for q in seq(exp)) and len(set(got)) == len(got)
     if k == "bounds":
         i, j = plane_axes(R.emb)
@@ -483,6 +487,10 @@ def replay_one(trimesh, beh, variant):
                 raised = type(e).__name__ + ": " + str(e)[:100]
             out["steps"] += 1
             if raised is not None:
+                if not st["exc"] and st.get("noent"):
+                    # process() without entities: whether the as-built code raises depends on an unmodelled detail
+                    viol("NoRaise", {"exception": raised, "predicted_by_as_built_model": "possible"}, si, "EmptyPathScaleRaises")
+                    raise Stop()
                 viol("NoRaise", {"exception": raised, "predicted_by_as_built_model": bool(st["exc"])}, si,
                      devid if st["exc"] else None)
                 if not st["exc"]:
@@ -520,7 +528,7 @@ def replay_one(trimesh, beh, variant):
                 out["reads"] += 1
                 got, exc = read_real(cur, st["k"])
                 if not read_ok(cur, st["k"], got, exc, st["exp"], st["arc"]):
-                    asb = dev and read_ok(cur, st["k"], got, exc, st["got"], st["arc"])
+                    asb = dev and read_ok(cur, st["k"], got, exc, st["got"], st["arc"], stale=True)
                     viol("ReadIsCurrent:" + st["k"], {"got": show(got), "exc": exc, "want": st["exp"]}, si,
                          devid if asb else None)
                     if not asb:
@@ -564,7 +572,7 @@ def replay_one(trimesh, beh, variant):
                 rec = fin["reads"][k]
                 out["reads"] += 1
                 if not read_ok(R, k, got, exc, rec["exp"], fin["arc"]):
-                    asb = seq(rec["dev"]) and read_ok(R, k, got, exc, rec["got"], fin["arc"])
+                    asb = seq(rec["dev"]) and read_ok(R, k, got, exc, rec["got"], fin["arc"], stale=True)
                     viol("ReadIsCurrent:" + k, {"got": show(got), "exc": exc, "want": rec["exp"], "where": "sweep"}, len(h),
                          seq(rec["dev"])[0] if asb else None)
             r2m = {v: k for k, v in R.m2r.items()}
@@ -692,13 +700,13 @@ def main(argv):
         jobs.append(("mc", "mc all starts, removals / clean-ups / masks / copy / reads, depth=4",
                      dict(depth=4, ops="OpsCore", invs=ALL_INVS), 6, None))
         jobs.append(("emit", "all histories depth=2", dict(depth=2, **emit_kw), 1, None))
-        for st in ("StartSq", "StartTri", "StartArc", "StartPl", "StartDup"):
-            jobs.append(("emit", f"all histories depth=3 from {st} (no flip / reverse)",
-                         dict(depth=3, starts=st, ops="OpsNoDir", **emit_kw), 1, None))
-        jobs.append(("emit", "all histories depth=3: flip / reverse / clean-ups / explode / reads",
-                     dict(depth=3, ops="OpsDir", **emit_kw), 1, None))
-        jobs.append(("emit", "simulate depth=8", dict(depth=8, **emit_kw), 1, ("num=300", 10)))
-        jobs.append(("emit", "simulate depth=5", dict(depth=5, **emit_kw), 1, ("num=300", 7)))
+        for grp, what in (("OpsG1", "removals / clean-ups / masks / reads"), ("OpsG2", "clean-ups / explode / flip / reads"),
+                          ("OpsG3", "clean-ups / copy / concatenate / transform / reads")):
+            for st in ("StartSq", "StartTri", "StartArc", "StartPl", "StartDup"):
+                jobs.append(("emit", f"all histories depth=3 of {what} from {st}",
+                             dict(depth=3, starts=st, ops=grp, **emit_kw), 1, None))
+        jobs.append(("emit", "simulate depth=8", dict(depth=8, **emit_kw), 1, ("num=250", 10)))
+        jobs.append(("emit", "simulate depth=5", dict(depth=5, **emit_kw), 1, ("num=250", 7)))
     for flag, inv, starts, ops, depth in SELFTESTS:
         jobs.append(("self", flag, dict(depth=depth, starts=starts, ops=ops, flags=(flag,), invs=[inv]), 1, None))
 
@@ -706,7 +714,8 @@ def main(argv):
         k, (kind, name, kw, workers, sim) = job
         dd = tlc.prepare("x04/job%d" % k)
         if sim is None:
-            rr = tlc.run(dd, "PathEdit", cfg(**kw), workers=workers, timeout=3000)
+            rr = tlc.run(dd, "PathEdit", cfg(**kw), workers=workers, timeout=3000,
+                         java_opts=["-Xmx4g"] if workers > 1 else None)
         else:
             rr = tlc.run(dd, "PathEdit", cfg(**kw), workers=1, simulate=sim[0], depth=sim[1], seed=seed() + 11 + k, timeout=3000)
         if kind == "emit":
@@ -743,7 +752,7 @@ def main(argv):
             counts[name] = rr.n_printed
             files.extend(rr.files)
     cov["spec_selftests"] = selftests
-    if min(counts.values()) < 200 or sum(counts.values()) < 3000:
+    if min(counts.values()) < 100 or sum(counts.values()) < 3000:
         raise MachineryError(f"emission too small: {counts}")
 
     # 4. replay
